@@ -203,7 +203,7 @@ class C01(Prop):
                 "input bytes, cursor offset stays <= len. Stack depth: the model's functions are loops, absence of recursion in the "
                 "Rust code is checked on the regenerated call graph, not proved.")
     assumptions = ["bytes are numbers < 256 (bytes_ok), which holds for every Vec<u8>", "usize arithmetic does not overflow 2^64"]
-    generated = ["Constants", "CallGraph"]
+    generated = ["Constants", "CallGraph", "Casts"]
 
     def keep_steps(self, case, io):
         return False
@@ -286,7 +286,7 @@ class C02(Prop):
                 "of the policy that does not mention the parser's control flow (C02_parse_sound, C02_parse_complete, C02_parse_ok_iff_wf, "
                 "C02_name_policy); unbounded, closed under the global context.")
     assumptions = ["bytes < 256"]
-    generated = ["Constants"]
+    generated = ["Constants", "Casts"]
 
     def gen(self, rng, tier):
         cases = []
@@ -330,6 +330,7 @@ class C02(Prop):
 
 class C18(Prop):
     release_too = True
+    generated = ["Constants", "Casts"]
     id = "C18"
     rule = ("P cases as for C01 plus families built to maximise pointer following (k records each naming through a 16-hop chain, "
             "maximal 255-byte names shared by all records, dense empty-option lists, runs of back-to-back pointers in opaque data named by every record), sizes doubling up to 65535 bytes. The model's "
@@ -688,6 +689,7 @@ def special_valid(rng):
 
 class C03(Prop):
     release_too = True
+    generated = ["Constants", "Casts"]
     id = "C03"
     rule = ("accepted packets (random messages under none/greedy/random/chain pointer layouts; hand-built: OPT first/middle/last/absent with "
             "0-3 options, 1/8/15/16-hop chains, pointers into rdata names and into the header, root and 255-byte names): walk the question, "
@@ -829,6 +831,7 @@ class C04(Prop):
 
 class C05(Prop):
     release_too = True
+    generated = ["Constants", "Casts"]
     id = "C05"
     rule = ("accepted packets as for C03; for each, Compress::uncompress_with_previous_offset at EVERY record boundary (start of every record "
             "and end of packet), plus uncompress of the canonical output again (stability). Expected output = the canonical pointer-free "
@@ -1661,6 +1664,7 @@ class C09(HistProp):
 
 class C10(HistProp):
     release_too = True
+    generated = ["Constants", "Casts"]
     id = "C10"
     clauses = {"err", "size"}
     rule = ("error-provoking histories: second question, malformed record text (field-wise damaged), invalid / over-long / pointer-bearing "
